@@ -2972,6 +2972,15 @@ func (te *TemplateEngine) createImageParagraph(imageData *TemplateImageData, doc
 			Position:  ImagePositionInline,
 			Alignment: AlignCenter,
 		}
+	} else {
+		// 使用配置的副本：下面的 SetImageAltText/SetImageTitle 会写入配置，
+		// 渲染不应修改调用方提供的模板数据（同一个配置可能被多张图片共用）
+		configCopy := *config
+		if config.Size != nil {
+			sizeCopy := *config.Size
+			configCopy.Size = &sizeCopy
+		}
+		config = &configCopy
 	}
 
 	// 添加图片到文档
